@@ -70,6 +70,15 @@ def main():
         r = run_one(mu, scale)
         print(r, flush=True)
         res.append(r)
+    outp = os.path.join(HERE, "seeded", "mutants_results.json")
+    try:
+        old = json.load(open(outp))
+    except Exception:  # noqa: BLE001
+        old = {}
+    for r in res:
+        old[r[0]] = {"property": r[1], "result": r[2], "seconds": round(r[3]) if len(r) > 3 else 0, "signatures": [x[:200] for x in (r[4] if len(r) > 4 else [])][:2]}
+    os.makedirs(os.path.dirname(outp), exist_ok=True)
+    json.dump(old, open(outp, "w"), indent=1, sort_keys=True)
     missed = [r for r in res if r[2] != "caught"]
     print(f"{len(res) - len(missed)}/{len(res)} caught; not caught: {[r[0] for r in missed]}")
 
